@@ -9,6 +9,7 @@ every case replays and shrinks exactly:
 `build_scenario(spec)` returns the list of batches, each a list of cfdm constructs.
 The shared generator harness/gen/fields.py is used read-only.
 """
+import json
 import random
 
 import numpy as np
@@ -156,9 +157,108 @@ def apply_mod(f, mod):
     return f
 
 
+MK_COORDS = [("time", "days since 2000-01-01"), ("latitude", "degrees_north"), ("longitude", "degrees_east"), ("height", "m")]
+
+
+def make_field(mk):
+    """A field built from scratch, axis by axis (the dimension family of scenarios):
+
+      {"ncvar": str|None, "sn": standard name, "seed": int,
+       "extra": None | {"ncdim": str|None, "dc": bool, "v": int, "aux2": int|None},          size-one axis not spanned by the data
+       "param": None | {"v": int, "ptop": number|None},     axis 0 (needs a "dc") is an atmosphere sigma coordinate: ps(axis 0), scalar ptop
+       "axes": [{"n": size, "ncdim": str|None, "unlim": bool,
+                 "dc": None | {"v": int, "k": 0..3, "ncvar": str|None, "bounds": bool, "anon": bool},   dimension coordinate
+                 "aux": None | {"v": int, "ncvar": str|None}}, …]}                        1-d auxiliary coordinate
+
+    Coordinate values are a function of (v, size, k) only, so that two axes have equal coordinates exactly when
+    these agree."""
+    C = cfdm()
+    f = C.Field(properties={"standard_name": mk.get("sn", "air_temperature"), "units": "K"})
+    if mk.get("ncvar") is not None:
+        f.nc_set_variable(mk["ncvar"])
+    keys = []
+    for a in mk["axes"]:
+        da = C.DomainAxis(int(a["n"]))
+        if a.get("ncdim") is not None:
+            da.nc_set_dimension(a["ncdim"])
+        if a.get("unlim"):
+            da.nc_set_unlimited(True)
+        keys.append(f.set_construct(da))
+    shape = [int(a["n"]) for a in mk["axes"]]
+    n = int(np.prod(shape)) if shape else 1
+    f.set_data(C.Data((np.arange(n, dtype="f8") * 0.5 + 7 * int(mk.get("seed", 0))).reshape(shape)), axes=keys)
+    ex = mk.get("extra")
+    if ex:
+        # a size-one axis that the data do not span: with a dimension coordinate alone it becomes a scalar coordinate
+        # variable; spanned by a 2-d auxiliary coordinate as well (or only) the writer inserts it into the data
+        da = C.DomainAxis(1)
+        if ex.get("ncdim") is not None:
+            da.nc_set_dimension(ex["ncdim"])
+        xk = f.set_construct(da)
+        if ex.get("dc"):
+            c = C.DimensionCoordinate(properties={"standard_name": "height", "units": "m"})
+            c.set_data(C.Data(np.array([1.5 + int(ex.get("v", 0))])))
+            f.set_construct(c, axes=[xk])
+        if ex.get("aux2") is not None and keys:
+            c = C.AuxiliaryCoordinate(properties={"long_name": "two-dimensional label", "units": "1"})
+            c.set_data(C.Data(50.0 * int(ex["aux2"]) + np.arange(shape[0], dtype="f8").reshape(1, shape[0])))
+            f.set_construct(c, axes=[xk, keys[0]])
+    for i, (a, key) in enumerate(zip(mk["axes"], keys)):
+        dc = a.get("dc")
+        if dc:
+            sn, u = MK_COORDS[dc.get("k", i) % len(MK_COORDS)]
+            # "anon": no standard name (the netCDF variable name then comes from the variable name that was set,
+            # else from the axis' netCDF dimension name used as it is, else the default "coordinate")
+            c = C.DimensionCoordinate(properties={"long_name": sn, "units": u} if dc.get("anon") else {"standard_name": sn, "units": u})
+            vals = 10.0 * int(dc.get("v", 0)) + np.arange(int(a["n"]), dtype="f8")
+            c.set_data(C.Data(vals))
+            if dc.get("bounds"):
+                nv = 4 if dc["bounds"] == 4 else 2    # True / 2: intervals; 4: four vertices per cell
+                b = np.empty((int(a["n"]), nv), dtype="f8")
+                for j in range(nv):
+                    b[:, j] = vals - 0.5 + j / (nv - 1)
+                c.set_bounds(C.Bounds(data=C.Data(b)))
+            if dc.get("ncvar") is not None:
+                c.nc_set_variable(dc["ncvar"])
+            f.set_construct(c, axes=[key])
+        ax = a.get("aux")
+        if ax:
+            if ax.get("str"):
+                # string-valued: stored as char with a string-length dimension in the classic formats
+                c = C.AuxiliaryCoordinate(properties={"long_name": f"label {i}"})
+                width = int(ax["str"])
+                c.set_data(C.Data(np.array([("s%d_%d" % (int(ax.get("v", 0)), j)).ljust(width, "x")[:max(width, 4)] for j in range(int(a["n"]))])))
+            else:
+                c = C.AuxiliaryCoordinate(properties={"long_name": f"label {i}", "units": "1"})
+                c.set_data(C.Data(100.0 * int(ax.get("v", 0)) + 2.0 * np.arange(int(a["n"]), dtype="f8")))
+            if ax.get("ncvar") is not None:
+                c.nc_set_variable(ax["ncvar"])
+            f.set_construct(c, axes=[key])
+    pm = mk.get("param")
+    if pm and mk["axes"] and mk["axes"][0].get("dc"):
+        # axis 0 carries a parametric vertical coordinate (atmosphere sigma): a domain ancillary `ps` over the axis and
+        # the scalar parameter `ptop` (a Data value, not a construct)
+        zk = [k for k, c in f.dimension_coordinates(todict=True).items() if f.get_data_axes(k) == (keys[0],)][0]
+        zc = f.constructs[zk]
+        zc.set_properties({"standard_name": "atmosphere_sigma_coordinate"})
+        zc.del_property("units", None)
+        zc.del_property("long_name", None)
+        ps = C.DomainAncillary(properties={"standard_name": "surface_air_pressure", "units": "Pa"})
+        ps.set_data(C.Data(1000.0 - 10.0 * int(pm.get("v", 0)) - np.arange(shape[0], dtype="f8"), units="Pa"))
+        pk = f.set_construct(ps, axes=[keys[0]])
+        prm = {"standard_name": "atmosphere_sigma_coordinate", "computed_standard_name": "air_pressure"}
+        if pm.get("ptop") is not None:
+            prm["ptop"] = C.Data(float(pm["ptop"]), units="Pa")
+        f.set_construct(C.CoordinateReference(coordinates=[zk], coordinate_conversion=C.CoordinateConversion(
+            parameters=prm, domain_ancillaries={"ps": pk})))
+    return f
+
+
 def build_one(spec, built):
     C = cfdm()
-    if "ex" in spec:
+    if "mk" in spec:
+        f = make_field(spec["mk"])
+    elif "ex" in spec:
         f = C.example_field(spec["ex"])
     elif "rand" in spec:
         f = F.random_field(random.Random(spec["rand"]), **spec.get("kw", {}))
@@ -196,7 +296,9 @@ RAND_KW_NOSTR = {"max_axes": 3, "allow": ["dim", "aux", "aux2d", "scalar", "msr"
 
 
 def _rand_spec(rng, classic):
-    kw = rng.choice([RAND_KW_SIMPLE, RAND_KW_NOSTR, RAND_KW_NOSTR, RAND_KW_FULL])
+    # variable-length string variables (RAND_KW_FULL, example fields 1, 4, 6) are what the open finding
+    # crash:dataset-reread-while-held-open needs: kept, but as a small share of the NETCDF4 scenarios
+    kw = rng.choice([RAND_KW_SIMPLE, RAND_KW_SIMPLE, RAND_KW_NOSTR, RAND_KW_NOSTR, RAND_KW_NOSTR, RAND_KW_NOSTR, RAND_KW_FULL])
     kw = dict(kw)
     if classic:
         # char storage of scalar strings cannot be read back in this environment (netCDF4 chartostring)
@@ -207,6 +309,8 @@ def _rand_spec(rng, classic):
 
 def _base_spec(rng, classic, exs):
     if rng.random() < 0.45:
+        if not classic and rng.random() < 0.75:
+            return {"ex": rng.choice([x for x in exs if x not in (1, 4, 6)])}
         return {"ex": rng.choice(exs)}
     return _rand_spec(rng, classic)
 
@@ -215,8 +319,9 @@ EXT_NAMES = ["areacella", "areacello", "volcello"]
 NAMES = ["ta", "q", "ua", "lat", "lon", "time", "x", "y", "bounds2", "dim", "data", "auxiliary", "a", "b", "lat_bnds"]
 
 
-def random_mods(rng, derived):
-    """Edits for an appended field.  `derived`: it is a copy of an earlier field."""
+def random_mods(rng, derived, held=()):
+    """Edits for an appended field.  `derived`: it is a copy of an earlier field.  `held`: [name, value] of
+    properties that S0 was given (candidates for global attributes of the dataset)."""
     mods = []
     if derived:
         r = rng.random()
@@ -246,11 +351,15 @@ def random_mods(rng, derived):
         mods.append(["coordncvar", rng.randrange(6), rng.choice(NAMES)])
     if rng.random() < 0.15:
         mods.append(["dimname", rng.randrange(4), rng.choice(NAMES)])
-    if rng.random() < 0.3:
+    if held and rng.random() < 0.3:
+        # a property that the dataset may hold as a global attribute: with the same value, or with another one
+        name, value = rng.choice(list(held))
+        mods.append(["prop", name, value if rng.random() < 0.5 else "appended text"])
+    elif rng.random() < 0.3:
         p = rng.choice(DESCR + ["project", "Conventions"])
         mods.append(["prop", p, rng.choice(["appended text", "first", "CF-1.8"])])
-    if rng.random() < 0.12:
-        mods.append(["global", rng.choice(["project", "comment", "extra"])] + ([rng.choice(["forced", "first"])] if rng.random() < 0.5 else []))
+    if rng.random() < 0.18:
+        mods.append(["global", rng.choice(["project", "comment", "extra"])] + ([rng.choice(["forced", "first"])] if rng.random() < 0.6 else []))
     if rng.random() < 0.12:
         mods.append(["fill", rng.choice(["_FillValue", "missing_value"]), rng.choice([-99, -77])])
     if rng.random() < 0.08:
@@ -276,13 +385,16 @@ def random_scenario(rng, tier="quick"):
             mods.append(["global", rng.choice(["project", "extra", "comment"])] + ([rng.choice(["forced", "first"])] if rng.random() < 0.5 else []))
         if rng.random() < 0.08:
             mods.append(["ft", rng.choice(["timeSeries", "profile"])])
-        if rng.random() < 0.14:
+        if rng.random() < 0.2:
             mods.append(["extmsr", rng.choice(EXT_NAMES), rng.random() < 0.3])
         if rng.random() < 0.05 and s0 == []:
             mods.append(["orogfield"])
         if mods:
             fs["mods"] = mods
         s0.append(fs)
+    held = [[m[1], m[2]] for f0 in s0 for m in f0.get("mods", ()) if m[0] == "prop"]
+    if len(s0) == 1 and "ex" in s0[0]:
+        held.append(["project", "research"])   # the example fields carry it (a global attribute when common to S0)
     batches = []
     nb = rng.choice([1, 1, 1, 2, 2, 3])
     for b in range(1, nb + 1):
@@ -294,12 +406,19 @@ def random_scenario(rng, tier="quick"):
                 pb = rng.randrange(0, b)
                 src = ([s0] + batches)[pb]
                 fs = {"from": [pb, rng.randrange(len(src))]}
-                fs["mods"] = random_mods(rng, True)
+                fs["mods"] = random_mods(rng, True, held)
             else:
                 fs = _base_spec(rng, classic, exs)
-                fs["mods"] = random_mods(rng, False)
+                fs["mods"] = random_mods(rng, False, held)
             if rng.random() < 0.16:
-                fs["mods"].append(["extmsr", rng.choice(EXT_NAMES), rng.random() < 0.4, rng.choice(["area", "area", "volume"])])
+                # an external cell measure: mostly one that the dataset already declares in external_variables (an
+                # undeclared one is the open finding external-variable-not-declared: kept as a small share)
+                declared = [m[1] for f0 in s0 for m in f0.get("mods", ()) if m[0] == "extmsr"]
+                r2 = rng.random()
+                if declared and r2 < 0.8:
+                    fs["mods"].append(["extmsr", rng.choice(declared), rng.random() < 0.4, rng.choice(["area", "area", "volume"])])
+                elif r2 < (0.9 if declared else 0.2):
+                    fs["mods"].append(["extmsr", rng.choice(EXT_NAMES), rng.random() < 0.4, rng.choice(["area", "area", "volume"])])
             # refusals and feature types
             r = rng.random()
             if r < 0.07 and not classic:
@@ -313,4 +432,141 @@ def random_scenario(rng, tier="quick"):
         spec["mode"] = "r+"
     if rng.random() < 0.25:
         spec["external"] = True  # appends (and their mode-'w' twins) are given an external= file
+    return spec
+
+
+# ----------------------------------------------------------------------------
+# the dimension family: fields built axis by axis (`make_field`), appended fields derived from an earlier
+# field by choosing, per axis, how it relates to an axis / dimension that is already in the dataset
+# ----------------------------------------------------------------------------
+DIM_NAMES = ["obs", "t", "x", "y"]
+VAR_NAMES = ["ta", "q", "ua"]
+
+
+def _dim_axis(rng, nc4, i):
+    a = {"n": rng.choice([2, 3, 4, 5]), "ncdim": rng.choice(DIM_NAMES) if rng.random() < 0.85 else None,
+         "unlim": bool(nc4 and rng.random() < 0.5)}
+    if rng.random() < 0.45:
+        a["dc"] = {"v": rng.randrange(3), "k": i, "ncvar": rng.choice([None, None, a["ncdim"], "time", "lat"]),
+                   "bounds": rng.choice([False, False, False, True, 4])}
+        if rng.random() < 0.2:
+            a["dc"].update(anon=True, ncvar=None)
+    if rng.random() < 0.4:
+        a["aux"] = {"v": rng.randrange(3), "ncvar": rng.choice([None, "label", "aux0"])}
+        if not nc4 and rng.random() < 0.5:
+            a["aux"]["str"] = rng.choice([5, 5, 7])    # char storage: string-length dimensions (strlen5, strlen7)
+    return a
+
+
+def _dim_extra(rng, ds):
+    if rng.random() < 0.75:
+        return None
+    r = rng.random()
+    return {"ncdim": rng.choice([None, "z"] + ds[:2]), "dc": r < 0.65, "v": rng.randrange(2), "aux2": rng.randrange(2) if (r < 0.3 or r >= 0.65) else None}
+
+
+def _names_of(mks):
+    """Variable and dimension names that the fields built so far ask for."""
+    vs, ds = [], []
+    for mk in mks:
+        if mk.get("ncvar"):
+            vs.append(mk["ncvar"])
+        for a in mk["axes"]:
+            if a.get("ncdim"):
+                ds.append(a["ncdim"])
+            for k in ("dc", "aux"):
+                if a.get(k) and a[k].get("ncvar"):
+                    vs.append(a[k]["ncvar"])
+    return vs, ds
+
+
+def _derive_axis(rng, t, nc4, vs, ds, i):
+    """An axis of an appended field from the axis `t` of an earlier one: every attribute is kept or changed
+    independently (netCDF dimension name: the same / the name of a variable / `<name>_1` / the name of another
+    dimension / another / none; size; unlimited; dimension coordinate present, equal or not; auxiliary
+    coordinate present, equal or not)."""
+    a = json.loads(json.dumps(t))
+    r = rng.random()
+    if r < 0.55:
+        pass
+    elif r < 0.65 and vs:
+        a["ncdim"] = rng.choice(vs)
+    elif r < 0.75 and t.get("ncdim"):
+        a["ncdim"] = t["ncdim"] + "_1"
+    elif r < 0.85 and ds:
+        a["ncdim"] = rng.choice(ds)
+    elif r < 0.93:
+        a["ncdim"] = rng.choice(DIM_NAMES + ["z"])
+    else:
+        a["ncdim"] = None
+    if rng.random() < 0.5:
+        a["n"] = rng.choice([x for x in (2, 3, 4, 5, 6) if x != t["n"]])
+    if nc4 and rng.random() < 0.25:
+        a["unlim"] = not t.get("unlim")
+    r = rng.random()
+    if r < 0.2:  # flip the presence of the dimension coordinate
+        a["dc"] = None if t.get("dc") else {"v": rng.randrange(3), "k": i, "ncvar": rng.choice([None, a.get("ncdim"), "time"]), "bounds": rng.random() < 0.3}
+    elif t.get("dc") and r < 0.5:  # other values / name / bounds
+        a["dc"] = dict(t["dc"], **rng.choice([{"v": (t["dc"]["v"] + 1) % 4}, {"ncvar": rng.choice([None, "time", a.get("ncdim")])},
+                                                {"bounds": rng.choice([x for x in (False, True, 4) if x != t["dc"].get("bounds")])}]))
+    r = rng.random()
+    if r < 0.2:
+        a["aux"] = None if t.get("aux") else {"v": rng.randrange(3), "ncvar": rng.choice([None, "label"])}
+    elif t.get("aux") and r < 0.45:
+        a["aux"] = dict(t["aux"], v=(t["aux"]["v"] + 1) % 4)
+        if a["aux"].get("str") and rng.random() < 0.4:
+            a["aux"]["str"] = 12 - a["aux"]["str"]
+    return a
+
+
+def dimension_scenario(rng, tier="quick"):
+    """Scenario of the dimension family (JSON-able spec)."""
+    nc4 = rng.random() < 0.8
+    fmt = "NETCDF4" if nc4 else rng.choice(FMTS[1:])
+    mks = []
+    s0 = []
+    for _ in range(rng.choice([1, 1, 2])):
+        axes = [_dim_axis(rng, nc4, i) for i in range(rng.choice([1, 1, 2]))]
+        if not mks and rng.random() < 0.5:
+            # a record axis: unlimited, named, without dimension coordinate (what observation files look like)
+            axes[0].update(unlim=nc4, ncdim=axes[0].get("ncdim") or "obs", dc=None)
+        mk = {"ncvar": rng.choice(VAR_NAMES + [None]), "sn": rng.choice(["air_temperature", "specific_humidity"]),
+              "seed": rng.randrange(50), "axes": axes}
+        x = _dim_extra(rng, [])
+        if x:
+            mk["extra"] = x
+        if axes[0].get("dc") and not axes[0]["dc"].get("anon") and rng.random() < 0.2:
+            mk["param"] = {"v": rng.randrange(2), "ptop": rng.choice([None, 10, 10, 20])}
+        mks.append(mk)
+        s0.append({"mk": mk})
+    batches = []
+    for _ in range(rng.choice([1, 2, 2, 3])):
+        batch = []
+        for _ in range(rng.choice([1, 1, 2])):
+            t = rng.choice(mks)
+            vs, ds = _names_of(mks)
+            axes = [_derive_axis(rng, ta, nc4, vs, ds, i) for i, ta in enumerate(t["axes"])]
+            r = rng.random()
+            if r < 0.12 and len(axes) > 1:
+                del axes[rng.randrange(len(axes))]
+            elif r < 0.24 and len(axes) < 3:
+                axes.insert(rng.randrange(len(axes) + 1), _dim_axis(rng, nc4, len(axes)))
+            elif r < 0.3 and len(axes) > 1:
+                axes.reverse()
+            mk = {"ncvar": t["ncvar"] if rng.random() < 0.6 else rng.choice(VAR_NAMES + ds[:1] + [None]),
+                  "sn": t["sn"] if rng.random() < 0.7 else "eastward_wind", "seed": rng.randrange(50, 100), "axes": axes}
+            x = t.get("extra") if rng.random() < 0.6 else _dim_extra(rng, ds)
+            if x:
+                mk["extra"] = dict(x, v=(x.get("v", 0) + 1) % 3) if rng.random() < 0.3 else x
+            if axes and axes[0].get("dc") and not axes[0]["dc"].get("anon"):
+                if t.get("param") and rng.random() < 0.8:
+                    mk["param"] = dict(t["param"], **rng.choice([{}, {}, {"v": 1 - t["param"].get("v", 0)}, {"ptop": rng.choice([None, 10, 20])}]))
+                elif rng.random() < 0.08:
+                    mk["param"] = {"v": rng.randrange(2), "ptop": rng.choice([None, 10, 20])}
+            mks.append(mk)
+            batch.append({"mk": mk, "mods": []})
+        batches.append(batch)
+    spec = {"fmt": fmt, "s0": s0, "batches": batches, "family": "dim"}
+    if rng.random() < 0.1:
+        spec["mode"] = "r+"
     return spec
